@@ -23,7 +23,7 @@ COMPONENTS = {"real": ["setigen.voltage.polyphase_filterbank (PolyphaseFilterban
               "stub": ["none needed: no clock, file or entropy is read on this path (entropy seam installed as tripwire)"]}
 ASSUMPTIONS = ["scipy.signal.firwin is the documented window design (trusted)",
                "float comparison at 1e-10 of the largest attainable output magnitude"]
-PROBES = ["chunk_single_window", "reset_midstream", "nocache_between_feeds", "interleaved_objects",
+PROBES = ["long_single_call", "same_coefficient_count_other_split_alive", "chunk_single_window", "reset_midstream", "nocache_between_feeds", "interleaved_objects",
           "complex_input", "nonpow2_branches", "dtype_switch_after_reset", "noncontiguous_input", "rejected_call"]
 
 WINDOWS = ["hamming", "hann", "boxcar", "blackman"]
@@ -100,6 +100,18 @@ def generate(rng, tier):
                         "a": rng.choice([2.0, -1.5, 0.25]), "b": rng.choice([1.0, 3.0, -0.5])})
         else:
             ops.append({"op": "complex", "p": p, "k": rng.choice([2, 3]), "seed": rng.randrange(1 << 30)})
+    if npfb >= 2 and rng.random() < 0.3:
+        # a near twin alive in the same process: same number of coefficients and window, other taps/branches split
+        T0, B0 = pfbs[0]["T"], pfbs[0]["B"]
+        splits = [(t, T0 * B0 // t) for t in (1, 2, 3, 4, 5, 8) if (T0 * B0) % t == 0 and t != T0 and T0 * B0 // t >= 4
+                  and (T0 * B0 // t) % 2 == 0]
+        if splits:
+            pfbs[1]["T"], pfbs[1]["B"] = rng.choice(splits)
+            pfbs[1]["window"] = pfbs[0]["window"]
+    if rng.random() < (0.012 if tier == "quick" else 0.03):
+        # one very long call: batch sizes inside the implementation are invisible to short streams
+        ops.append({"op": "long", "p": rng.randrange(npfb), "log2n": rng.uniform(15.0, 20.4), "seed": rng.randrange(1 << 30),
+                    "chunk_windows": rng.choice([16, 64, 100])})
     return {"seams": {"entropy_salt": rng.randrange(1 << 20), "scratch": "c08"}, "pfbs": pfbs, "ops": ops}
 
 
@@ -164,6 +176,9 @@ def execute(sc, ctx):
         # the window itself is part of the definition
         ctx.check(np.allclose(np.asarray(o.window), h, rtol=1e-12, atol=1e-12), "window",
                   "C08/window/differs_from_documented_design", "window coefficients differ")
+    if len({(S["T"] * S["B"], sp["window"]) for S, sp in zip(objs, sc["pfbs"])}) < len({(S["T"], S["B"], sp["window"])
+                                                                                           for S, sp in zip(objs, sc["pfbs"])}):
+        ctx.hit("same_coefficient_count_other_split_alive")
     touched = set()
     last_p = None
     for op in sc["ops"]:
@@ -239,6 +254,32 @@ def execute(sc, ctx):
             same = (cache_before is None and o.cache is None) or (
                 cache_before is not None and o.cache is not None and np.array_equal(cache_before, o.cache))
             ctx.check(same, "cache", "C08/nocache_call_disturbs_stream", "cache changed by cache=False call")
+        elif op["op"] == "long":
+            k = max(int(2 ** op["log2n"]) // (T * B), T + 2)
+            y = make_input("gauss", op["seed"], k * T * B)
+            got = np.asarray(o.channelize(y.copy(), cache=False))
+            ctx.event("long", p, got.shape, got[-1])
+            ctx.hit("long_single_call")
+            nrows = len(y) // B - T
+            if not ctx.check(got.shape == (nrows, B // 2), "count", "C08/count/long_call", lambda: "got %s want (%d, %d)" % (
+                    got.shape, nrows, B // 2)):
+                return
+            tol = mv.pfb_tol(y, h, T, B)
+            want = mv.ref_pfb(y, T, B, h)
+            bad = _first_bad(got, want, tol)
+            if not ctx.check(bad is None, "value", "C08/value/long_call/%s" % (
+                    "all_zero_rows" if bad is not None and not np.any(got[bad[0]]) else "rows"),
+                    lambda: "spectrum %d of %d (T=%d B=%d, %d samples)" % (bad[0], nrows, T, B, len(y))):
+                return
+            # ... and the same stream in moderate chunks through a fresh object gives the same spectra
+            o2 = pf.PolyphaseFilterbank(num_taps=T, num_branches=B, window_fn=sc["pfbs"][p]["window"])
+            step = op["chunk_windows"] * T * B
+            parts = [np.asarray(o2.channelize(y[a:a + step].copy(), cache=True)) for a in range(0, len(y), step)]
+            cat = np.concatenate(parts)
+            if ctx.check(cat.shape == got.shape, "count", "C08/count/long_call_vs_chunked", lambda: "%s vs %s" % (cat.shape, got.shape)):
+                bad = _first_bad(got, cat, 2 * tol)
+                ctx.check(bad is None, "value", "C08/value/long_call_differs_from_chunked", lambda: "at %s" % (bad,))
+            ctx.nontrivial = True
         elif op["op"] == "reject":
             try:
                 o.channelize(None if op["arg"] == "none" else 5.0, cache=True)
